@@ -3,6 +3,7 @@ EXTENDS Topology
 R(x) == CASE x = "r" -> {"root"} [] x = "s" -> {"seed"} [] x = "b" -> {"seed", "root"} [] OTHER -> {}
 Cfg(a, b, c) == [n \in Nodes |-> IF n = "n1" THEN R(a) ELSE IF n = "n2" THEN R(b) ELSE R(c)]
 MCRoleCfgs == {Cfg("r", "r", "s"), Cfg("r", "s", "n"), Cfg("s", "s", "n"), Cfg("r", "s", "s"), Cfg("s", "n", "n")}
+MCRoleCfgsQuick == {Cfg("r", "r", "s"), Cfg("s", "s", "n")}
 MCRoles == {{}, {"seed"}, {"root"}}
 \* the later node dialled the earlier one
 MCDials == {<<"n2", "n1">>, <<"n3", "n1">>, <<"n3", "n2">>, <<"n4", "n1">>, <<"n4", "n2">>, <<"n4", "n3">>}
